@@ -15,6 +15,8 @@ from typing import TYPE_CHECKING
 from typing import cast
 from warnings import warn
 
+from glotaran.utils import verif_trace as _vt
+
 if TYPE_CHECKING:
     from collections.abc import Callable
     from collections.abc import Generator
@@ -169,7 +171,12 @@ def set_plugin(
     add_plugin_to_registry
     full_plugin_name
     """
+    if _vt.ENABLED:
+        _pre = _vt.registry_projection(plugin_registry)
+        _args = {"reg": id(plugin_registry), "key": plugin_register_key, "full": full_plugin_name}
     if "." in plugin_register_key:
+        if _vt.ENABLED:
+            _vt.emit("set", **_args, err="ValueError", pre=_pre, post=_pre)
         raise ValueError(
             f"The value of {plugin_register_key_name!r} isn't "
             "allowed to contain the character '.' ."
@@ -180,11 +187,15 @@ def set_plugin(
         known_plugins = list(
             filter(lambda plugin_name: "." in plugin_name, plugin_registry.keys())
         )
+        if _vt.ENABLED:
+            _vt.emit("set", **_args, err="ValueError", pre=_pre, post=_pre)
         raise ValueError(
             f"There isn't a plugin registered under the full name {full_plugin_name!r}.\n"
             f"Maybe you need to install a plugin? Known plugins are:\n {known_plugins}"
         )
     plugin_registry[plugin_register_key] = plugin_registry[full_plugin_name]
+    if _vt.ENABLED:
+        _vt.emit("set", **_args, err="", pre=_pre, post=_vt.registry_projection(plugin_registry))
 
 
 def add_plugin_to_registry(
@@ -223,7 +234,18 @@ def add_plugin_to_registry(
     add_instantiated_plugin_to_register
     full_plugin_name
     """
+    if _vt.ENABLED:
+        _pre = _vt.registry_projection(plugin_registry)
+        _warned = False
+        _args = {
+            "reg": id(plugin_registry),
+            "key": plugin_register_key,
+            "cls": full_plugin_name(plugin),
+            "fmt": instance_identifier,
+        }
     if "." in plugin_register_key:
+        if _vt.ENABLED:
+            _vt.emit("register", **_args, err="ValueError", warned=False, pre=_pre, post=_pre)
         raise ValueError(
             "The character '.' isn't allowed in the name of a plugin, "
             f"you provided the name {plugin_register_key!r}."
@@ -241,10 +263,21 @@ def add_plugin_to_registry(
                 ),
                 stacklevel=4,
             )
+            if _vt.ENABLED:
+                _warned = True
     if instance_identifier:
         instance_identifier = f"_{instance_identifier}"
     plugin_registry[f"{full_plugin_name(plugin)}{instance_identifier}"] = plugin
     plugin_registry[plugin_register_key] = plugin
+    if _vt.ENABLED:
+        _vt.emit(
+            "register",
+            **_args,
+            err="",
+            warned=_warned,
+            pre=_pre,
+            post=_vt.registry_projection(plugin_registry),
+        )
 
 
 def add_instantiated_plugin_to_registry(
@@ -354,9 +387,17 @@ def get_plugin_from_registry(
     ValueError
         If there was no plugin registered under the name ``plugin_register_key``.
     """
+    if _vt.ENABLED:
+        _pre = _vt.registry_projection(plugin_registry)
+        _args = {"reg": id(plugin_registry), "key": plugin_register_key, "pre": _pre, "post": _pre}
     if not is_registered_plugin(plugin_register_key, plugin_registry):
+        if _vt.ENABLED:
+            _vt.emit("lookup", **_args, err="ValueError", ret=["none", ""])
         raise ValueError(not_found_error_message)
     else:
+        if _vt.ENABLED:
+            _found = _vt.registry_projection({"": plugin_registry[plugin_register_key]})[""]
+            _vt.emit("lookup", **_args, err="", ret=_found)
         return plugin_registry[plugin_register_key]
 
 
